@@ -514,6 +514,13 @@ func (fr *Framer) ReadFrame() (Frame, error) {
 		if ce, ok := err.(connError); ok {
 			return nil, fr.connError(ce.Code, ce.Reason)
 		}
+		if err == io.ErrUnexpectedEOF {
+			// The whole payload was read above, so a parser running out of
+			// bytes means the frame is too small to contain the fields its
+			// type and flags require: FRAME_SIZE_ERROR (RFC 7540, section 4.2),
+			// not an I/O error.
+			return nil, fr.connError(ErrCodeFrameSize, "frame too small for its mandatory fields")
+		}
 		return nil, err
 	}
 	if err := fr.checkFrameOrder(f); err != nil {
